@@ -165,7 +165,8 @@ func VerifHarness_RegJournal(op uint64) {
 	rec := tr.StateChanges().findKey(self, &slot, off8, tid)
 	if !(keyOk && offOk && parentOk) {
 		verifReach("malformed")
-		verifAssert(err != nil, "C12/C11: malformed operands or unknown parent are refused")
+		verifAssert(err != nil, "C11: malformed operands or an unknown parent are refused")
+		verifAssert(err != nil && err != ErrExecutionReverted && err != errStopToken, "C12: malformed operands halt the frame exceptionally")
 		if !nested || !parentRegistered {
 			verifAssert(rec == nil || !offOk, "C11: a refused registration adds nothing to the flat index")
 		}
@@ -173,6 +174,7 @@ func VerifHarness_RegJournal(op uint64) {
 	}
 	verifReach("wellformed")
 	verifAssert(err == nil, "C12: well-formed registration succeeds")
+	verifAssert(err == nil, "C11: a registration under a registered parent (any offset 0..31) succeeds")
 	verifAssert(rec != nil, "C11: registered key reachable by (slot, offset, type)")
 	var byName *StorageKey
 	if nested {
